@@ -44,6 +44,101 @@ def obj_root(s):
             return t
     return None
 
+def gc_roles(items):
+    """The collector's data by role, found from types and use rather than from names:
+    HEAP  - the Vec<*mut ObjectHeader> of a thread that objects are unlinked from (swap_remove / remove)
+    GRAY  - the Vec<*mut ObjectHeader> of a thread that is popped (the marking worklist)
+    STATE - the thread field of type GcState
+    LIVE  - the thread's bool that header flags are compared with: the mark value meaning "reached"
+    MARK  - the header bool that is compared with / assigned from LIVE
+    NOGC  - the header's other bool (objects exempt from collection)
+    Returns None when a role cannot be told apart."""
+    th = q.find_struct(items, "VmGreenThread")
+    hd = q.find_struct(items, "ObjectHeader")
+    if th is None or hd is None:
+        return None
+    vecs = [fl["name"] for fl in th["fields"] if fl["ty"].replace(" ", "") == "Vec<*mutObjectHeader>"]
+    bools = [fl["name"] for fl in th["fields"] if fl["ty"].strip() == "bool"]
+    hbools = [fl["name"] for fl in hd["fields"] if fl["ty"].strip() == "bool"]
+    state = [fl["name"] for fl in th["fields"] if fl["ty"].strip() == "GcState"]
+    popped, unlinked, flipped = set(), set(), set()
+    pairs = {}
+    for f in q.find_fns(items, impl_ty="VmGreenThread"):
+        if f.get("body") is None:
+            continue
+        for x in q.walk(f["body"]):
+            if x["k"] == "MethodCall" and x["recv"]["k"] == "Field" and x["recv"]["f"] in vecs:
+                if x["m"] == "pop":
+                    popped.add(x["recv"]["f"])
+                if x["m"] in ("swap_remove", "remove"):
+                    unlinked.add(x["recv"]["f"])
+            if x["k"] == "Assign" and x["a"]["k"] == "Field" and x["a"]["f"] in bools and x["b"]["k"] == "Unary" and x["b"]["op"] == "!" and q.show(x["b"]["e"]) == q.show(x["a"]):
+                flipped.add(x["a"]["f"])
+    # swap_remove may be applied to a local alias of the list (`let list = &mut self.heap_list`)
+    if not unlinked:
+        for f in q.find_fns(items, impl_ty="VmGreenThread"):
+            if f.get("body") is None:
+                continue
+            alias = {}
+            for x in q.walk(f["body"]):
+                if x["k"] == "Local" and x.get("init") is not None:
+                    for y in q.walk(x["init"]):
+                        if y["k"] == "Field" and y["f"] in vecs:
+                            for b in q.pat_bindings(x["pat"]):
+                                alias[b] = y["f"]
+                if x["k"] == "MethodCall" and x["m"] in ("swap_remove", "remove") and q.show(q.strip_refs(x["recv"])).lstrip("*") in alias:
+                    unlinked.add(alias[q.show(q.strip_refs(x["recv"])).lstrip("*")])
+    if len(popped) != 1 or len(state) != 1:
+        return None
+    gray = next(iter(popped))
+    heap = [v for v in vecs if v != gray]
+    if unlinked - {gray}:
+        heap = sorted(unlinked - {gray})
+    if len(heap) != 1:
+        return None
+    # the header flag and the thread flag that meet in comparisons / assignments (the thread flag may arrive through a parameter
+    # of the same name)
+    for f, _ in q.iter_items(items):
+        if f["k"] != "Fn" or f.get("body") is None:
+            continue
+        for x in q.walk(f["body"]):
+            if x["k"] in ("Binary", "Assign") and (x["k"] == "Assign" or x["op"] in ("==", "!=")):
+                sides = [x["a"], x["b"]]
+                for a, b in (sides, sides[::-1]):
+                    a0 = q.strip_refs(a)
+                    if a0["k"] == "Field" and a0["f"] in hbools:
+                        for tb in bools:
+                            if tb in q.idents_in(b) | {y["f"] for y in q.walk(b) if y["k"] == "Field"}:
+                                pairs[(a0["f"], tb)] = pairs.get((a0["f"], tb), 0) + 1
+    if not pairs:
+        return None
+    mark, live = max(pairs, key=pairs.get)
+    nogc = [b for b in hbools if b != mark]
+    return {"HEAP": heap[0], "GRAY": gray, "STATE": state[0], "LIVE": live, "MARK": mark, "NOGC": nogc[0] if len(nogc) == 1 else None}
+
+
+def marking_fns(items):
+    """Names of the functions that mark a value: the one that sets the header's mark and pushes it on the worklist, and every
+    function that calls one of those (a helper that marks a slice, the root marker, ...)."""
+    ro = gc_roles(items)
+    out = set()
+    fns = [f for f in q.find_fns(items, impl_ty="VmGreenThread") if f.get("body") is not None]
+    for f in fns:
+        if ro and any(x["k"] == "Assign" and q.strip_refs(x["a"])["k"] == "Field" and q.strip_refs(x["a"])["f"] == ro["MARK"] for x in q.walk(f["body"])) and any(x["k"] == "MethodCall" and x["m"] == "push" for x in q.walk(f["body"])):
+            out.add(f["name"])
+    if not out:
+        out.add("mark")
+    changed = True
+    while changed:
+        changed = False
+        for f in fns:
+            if f["name"] in out:
+                continue
+            if any((x["k"] == "Call" and x["f"]["k"] == "Path" and q.last_seg(x["f"]["p"]) in out) or (x["k"] == "MethodCall" and x["m"] in out and q.show(x["recv"]) == "self") for x in q.walk(f["body"])):
+                out.add(f["name"])
+                changed = True
+    return out
+
 
 @rule("GC-BARRIER", ["C06"], "every store of a Value into a heap object's payload is preceded in its arm by write_barrier(parent, value)")
 def gc_barrier(ctx, r):
@@ -93,11 +188,20 @@ def gc_barrier(ctx, r):
 GC_STATES = ("Idle", "Marking", "Sweeping")
 
 
+STATE_FIELD = ["gc_state"]  # set from gc_roles by the rules that evaluate collector-state tests
+
+
 def state_eval(e, state, lets, depth=0):
     """Evaluate a boolean expression over `vm.gc_state` for one collector state."""
-    if e is None or depth > 6:
+    if e is None or depth > 8:
         raise ValueError("unsupported expression")
     k = e["k"]
+    SF = STATE_FIELD[0]
+    if k == "Paren":
+        return state_eval(e["e"], state, lets, depth + 1)
+    if k == "MethodCall" and isinstance(e.get("inl"), dict) and SF in q.show(e["recv"]):
+        # a predicate on the state (`fn is_marking(&self) -> bool`) expanded in place
+        return state_eval(e["inl"]["body"], state, lets, depth + 1)
     if k == "Lit" and e.get("t") == "bool":
         return e["v"] == "true"
     if k == "Path":
@@ -114,16 +218,16 @@ def state_eval(e, state, lets, depth=0):
         sides = [q.show(e["a"]), q.show(e["b"])]
         st = next((q.last_seg(s.split("{")[0]) for s in sides if "GcState::" in s), None)
         other = next((s for s in sides if "GcState::" not in s), "")
-        if st is None or "gc_state" not in other:
+        if st is None or (SF not in other and other.strip("*& ") != "self"):
             raise ValueError("comparison " + q.show(e))
         return (st == state) if e["op"] == "==" else (st != state)
-    if k == "Match" and "gc_state" in q.show(e["e"]):
+    if k == "Match" and (SF in q.show(e["e"]) or q.show(e["e"]).strip("*& ") == "self"):
         for a in e["arms"]:
             heads = [q.last_seg(h) for h in q.pat_heads(a["pat"])]
             if state in heads or "_" in heads:
                 return state_eval(a["body"], state, lets, depth + 1)
         raise ValueError("no arm for " + state)
-    if k == "Macro" and e["name"] == "matches" and e.get("pat") is not None and e.get("args") and "gc_state" in q.show(e["args"][0]):
+    if k == "Macro" and e["name"] == "matches" and e.get("pat") is not None and e.get("args") and (SF in q.show(e["args"][0]) or q.show(e["args"][0]).strip("*& ") == "self"):
         return state in [q.last_seg(h) for h in q.pat_heads(e["pat"])]
     if k == "Block" and len(e["stmts"]) == 1 and e["stmts"][0]["k"] == "ExprStmt":
         return state_eval(e["stmts"][0]["e"], state, lets, depth + 1)
@@ -137,6 +241,11 @@ def gc_alloc(ctx, r):
         r.missing("vm.rs")
         return
     n = 0
+    ro = gc_roles(items)
+    if ro is None or ro["NOGC"] is None:
+        r.missing("collector roles (heap list, gray worklist, state, live mark, header mark)", VM)
+        return
+    STATE_FIELD[0] = ro["STATE"]
     for impl in q.find_impls(items):
         ty = impl["self_ty"]
         if not ty.endswith("Object"):
@@ -153,7 +262,9 @@ def gc_alloc(ctx, r):
             n += 1
             key = f"vm.rs:{ty}::{f['name']}"
             # (1) colour: evaluate the `visited` expression in each collector state
-            vis = next((fl["e"] for fl in hdr[0]["fields"] if fl["name"] == "visited"), None)
+            vis = next((fl["e"] for fl in hdr[0]["fields"] if fl["name"] == ro["MARK"]), None)
+            if vis is None:
+                r.missing(key + ":header-colour:mark-field", VM, f"the header literal does not set `{ro['MARK']}`")
             lets = {b: x["init"] for x in W(f["body"]) if x["k"] == "Local" and x.get("init") is not None for b in q.pat_bindings(x["pat"])}
             try:
                 tbl = {st: state_eval(vis, st, lets) for st in GC_STATES} if vis is not None else None
@@ -163,15 +274,15 @@ def gc_alloc(ctx, r):
             ok = tbl == {"Idle": False, "Marking": True, "Sweeping": True}
             if tbl is not None:
                 r.ob(ok, key + ":header-colour", VM, f["l"], f"{ty}::{f['name']}: a new object must be white when idle and black while marking or sweeping; header.visited evaluates to {tbl} (an object born white during the sweep is freed by the sweep in progress while still referenced)", sample=f"{ty}::{f['name']}: colour per state {tbl}")
-            nogc = next((q.show(fl["e"]) for fl in hdr[0]["fields"] if fl["name"] == "no_gc"), None)
+            nogc = next((q.show(fl["e"]) for fl in hdr[0]["fields"] if fl["name"] == ro["NOGC"]), None)
             r.ob(nogc == "false", key + ":no_gc", VM, f["l"], f"{ty}::{f['name']}: a thread-heap object must not be exempt from collection (no_gc = {nogc})")
             # (2) registered
-            reg = any(x["k"] == "MethodCall" and x["m"] == "push" and q.show(x["recv"]).endswith(".heap_list") for x in W(f["body"]))
+            reg = any(x["k"] == "MethodCall" and x["m"] == "push" and q.show(x["recv"]).endswith("." + ro["HEAP"]) for x in W(f["body"]))
             r.ob(reg, key + ":not-registered", VM, f["l"], f"{ty}::{f['name']}: the object is not pushed to heap_list: it is never swept nor freed on drop")
             # (3) shaded exactly while marking: evaluate the guard of the gray-stack push in each collector state
             shade_tbl = None
             for x in W(f["body"]):
-                if x["k"] == "If" and any(y["k"] == "MethodCall" and y["m"] == "push" and q.show(y["recv"]).endswith(".gray_stack") for y in W(x["t"])):
+                if x["k"] == "If" and any(y["k"] == "MethodCall" and y["m"] == "push" and q.show(y["recv"]).endswith("." + ro["GRAY"]) for y in W(x["t"])):
                     try:
                         shade_tbl = {st: state_eval(x["c"], st, lets) for st in GC_STATES}
                     except ValueError as e:
@@ -215,8 +326,10 @@ def root_marker(items):
     if smp is None:
         return None
 
+    mf = marking_fns(items)
+
     def marks_fields(f):
-        return any(x["k"] == "Call" and q.show(x["f"]).endswith("mark") for x in q.walk(f["body"]))
+        return any((x["k"] == "Call" and x["f"]["k"] == "Path" and q.last_seg(x["f"]["p"]) in mf) for x in q.walk(f["body"]))
 
     if marks_fields(smp):
         return smp
@@ -370,18 +483,23 @@ def gc_termination(ctx, r):
         r.missing("vm.rs")
         return
     rm = root_marker(items)
+    ro = gc_roles(items)
+    if ro is None:
+        r.missing("collector roles", VM)
+        return
+    GRAYF = ro["GRAY"]
     sites = []
     for f in q.find_fns(items, impl_ty="VmGreenThread"):
         for x in q.walk(f["body"]):
-            if x["k"] == "Assign" and q.show(x["a"]) == "self.gc_state" and "Sweeping" in q.show(x["b"]):
+            if x["k"] == "Assign" and q.show(x["a"]) == "self." + ro["STATE"] and "Sweeping" in q.show(x["b"]):
                 sites.append((f, x))
     r.count("transitions to Sweeping", len(sites), 1, VM)
     for f, asg in sites:
         # enclosing chain of ifs
         chain = enclosing_ifs(f["body"], asg)
-        empties = [c for c in chain if "gray_stack.is_empty()" in q.show(c["c"]).replace(" ", "")]
+        empties = [c for c in chain if GRAYF + ".is_empty()" in q.show(c["c"]).replace(" ", "")]
         ok = False
-        why = "the transition is not guarded by gray_stack.is_empty()"
+        why = f"the transition is not guarded by {GRAYF}.is_empty()"
         if empties:
             why = "no root re-marking between the emptiness test and the transition"
             # a call to the root marker inside an enclosing emptiness test and before a (second) emptiness test that guards the transition
@@ -450,49 +568,75 @@ def gc_sweep(ctx, r):
     if items is None:
         r.missing("vm.rs")
         return
+    ro = gc_roles(items)
+    if ro is None or ro["NOGC"] is None:
+        r.missing("collector roles", VM)
+        return
+    HEAP, GRAY, LIVE, MARK, NOGC = ro["HEAP"], ro["GRAY"], ro["LIVE"], ro["MARK"], ro["NOGC"]
     sw = q.find_fn(items, "sweep", impl_ty="VmGreenThread")
-    mk = q.find_fn(items, "mark", impl_ty="VmGreenThread")
+    # the marking primitive: sets the header's mark and pushes the object on the worklist
+    mk = next((f for f in q.find_fns(items, impl_ty="VmGreenThread") if f.get("body") is not None and f["name"] != "write_barrier"
+               and any(x["k"] == "Assign" and q.strip_refs(x["a"])["k"] == "Field" and q.strip_refs(x["a"])["f"] == MARK for x in q.walk(f["body"]))
+               and any(x["k"] == "MethodCall" and x["m"] == "push" for x in q.walk(f["body"]))
+               and not any(x["k"] == "MethodCall" and x["m"] == "pop" for x in q.walk(f["body"]))), None)
     if sw is None or mk is None:
         r.missing("sweep/mark", VM)
         return
-    ifs = [x for x in q.walk(sw["body"]) if x["k"] == "If" and "visited" in q.show(x["c"]) and "gc_visited" in q.show(x["c"])]
+
+    def is_mark_test(c):
+        while c["k"] == "Paren":
+            c = c["e"]
+        if c["k"] != "Binary" or c["op"] not in ("==", "!="):
+            return False
+        sides = [q.strip_refs(c["a"]), q.strip_refs(c["b"])]
+        return any(a["k"] == "Field" and a["f"] == MARK and LIVE in (q.idents_in(b) | {y["f"] for y in q.walk(b) if y["k"] == "Field"}) for a, b in (sides, sides[::-1]))
+
+    ifs = [x for x in q.walk(sw["body"]) if x["k"] == "If" and is_mark_test(x["c"])]
     if not ifs:
         r.missing("sweep:mark-test", VM)
     else:
         i = ifs[0]
         c = i["c"]
-        neq = c["k"] == "Binary" and c["op"] == "!="
-        eq = c["k"] == "Binary" and c["op"] == "=="
+        while c["k"] == "Paren":
+            c = c["e"]
+        neq = c["op"] == "!="
         free_branch, keep_branch = (i["t"], i["e"]) if neq else (i["e"], i["t"])
-        r.ob(neq or eq, "vm.rs:sweep:mark-test-form", VM, i["l"], f"sweep's liveness test `{q.show(c)}` is not a comparison of header.visited with gc_visited")
-        if (neq or eq) and free_branch is not None and keep_branch is not None:
+        r.ob(True, "vm.rs:sweep:mark-test-form", VM, i["l"], "", sample=f"sweep: liveness test `{q.show(c)}`")
+        if free_branch is not None and keep_branch is not None:
+            # the object list may be reached through a local alias
+            alias = {HEAP}
+            for x in q.walk(sw["body"]):
+                if x["k"] == "Local" and x.get("init") is not None and any(y["k"] == "Field" and y["f"] == HEAP for y in q.walk(x["init"])):
+                    alias |= set(q.pat_bindings(x["pat"]))
             frees = any(x["k"] == "MethodCall" and x["m"] == "dealloc" for x in q.walk(free_branch))
-            unlinks = any(x["k"] == "MethodCall" and x["m"] in ("swap_remove", "remove") and q.show(x["recv"]).endswith("heap_list") for x in q.walk(free_branch))
+            unlinks = any(x["k"] == "MethodCall" and x["m"] in ("swap_remove", "remove") and q.show(q.strip_refs(x["recv"])).lstrip("*").split(".")[-1] in alias for x in q.walk(free_branch))
             keeps_free = any(x["k"] == "MethodCall" and x["m"] == "dealloc" for x in q.walk(keep_branch))
             r.ob(frees and unlinks and not keeps_free, "vm.rs:sweep:polarity", VM, i["l"],
-                 "sweep must free and unlink exactly the objects whose mark differs from gc_visited (the unmarked ones) and keep the others", sample="sweep: visited != gc_visited -> dealloc + swap_remove")
-            resets = any(x["k"] == "Assign" and q.show(x["a"]).endswith(".visited") and q.show(x["b"]).replace(" ", "") == "!self.gc_visited" for x in q.walk(keep_branch))
+                 f"sweep must free and unlink exactly the objects whose mark differs from {LIVE} (the unmarked ones) and keep the others", sample=f"sweep: {MARK} != {LIVE} -> dealloc + swap_remove")
+            resets = any(x["k"] == "Assign" and q.strip_refs(x["a"])["k"] == "Field" and q.strip_refs(x["a"])["f"] == MARK and q.show(x["b"]).replace(" ", "") in ("!self." + LIVE, "!" + LIVE) for x in q.walk(keep_branch))
             adv = any(x["k"] == "Binary" and x["op"] == "+=" and "index" in q.show(x["a"]) for x in q.walk(keep_branch))
             adv_free = any(x["k"] == "Binary" and x["op"] == "+=" and "index" in q.show(x["a"]) for x in q.walk(free_branch))
             r.ob(resets and adv and not adv_free, "vm.rs:sweep:survivor", VM, i["l"], "a surviving object must be reset to white and the cursor advanced; after swap_remove the cursor must not advance", sample="sweep: survivor -> white, index += 1")
-    # mark
-    st = q.body_stmts(mk["body"])
-    txt = [q.show(s.get("e") or s.get("init") or {}) for s in st]
+    # mark: the flag is set before the push, and both happen only for a pointer to a collectable, not yet marked object
     body = mk["body"]
-    sets = [x for x in q.walk(body) if x["k"] == "Assign" and q.show(x["a"]).endswith(".visited")]
+    order = {id(x): n_ for n_, x in enumerate(q.walk(body))}
+    sets = [x for x in q.walk(body) if x["k"] == "Assign" and q.strip_refs(x["a"])["k"] == "Field" and q.strip_refs(x["a"])["f"] == MARK]
     pushes = [x for x in q.walk(body) if x["k"] == "MethodCall" and x["m"] == "push"]
-    r.ob(bool(sets) and bool(pushes) and sets[0]["l"] <= pushes[0]["l"], "vm.rs:mark:flag-before-push", VM, mk["l"], "mark must set the visited flag before pushing the object on the gray stack (otherwise cycles push forever)", sample="mark: visited set, then pushed")
-    early = [x for x in q.walk(body) if x["k"] == "If" and any(y["k"] == "Return" for y in q.walk(x["t"]))]
-    conds = " ".join(q.show(x["c"]) for x in early)
-    r.ob("is_pointer" in conds and "no_gc" in conds and "visited" in conds, "vm.rs:mark:early-returns", VM, mk["l"], f"mark must skip non-pointers, no_gc objects and already marked objects (tests: {conds})", sample="mark: skips non-pointer / no_gc / marked")
+    r.ob(bool(sets) and bool(pushes) and order[id(sets[0])] <= order[id(pushes[0])], "vm.rs:mark:flag-before-push", VM, mk["l"], "mark must set the mark flag before pushing the object on the gray stack (otherwise cycles push forever)", sample=f"{mk['name']}: {MARK} set, then pushed")
+    atoms = q.cond_atoms(q.path_conds(body, pushes[0]) or []) if pushes else []
+    ptr_ok = any(pol and a["k"] == "MethodCall" and a["m"] == "is_pointer" for a, pol in atoms)
+    nogc_ok = any((not pol) and q.strip_refs(a)["k"] == "Field" and q.strip_refs(a)["f"] == NOGC for a, pol in atoms)
+    unmarked_ok = any(is_mark_test(a) and ((a["op"] == "!=") == pol) for a, pol in atoms if a["k"] == "Binary")
+    r.ob(ptr_ok and nogc_ok and unmarked_ok, "vm.rs:mark:early-returns", VM, mk["l"],
+         f"{mk['name']} must skip non-pointers, {NOGC} objects and already marked objects; the push is reached under {[('' if pol else 'not ') + q.show(a) for a, pol in atoms]}", sample=f"{mk['name']}: skips non-pointer / {NOGC} / marked")
     # drop
     drops = [i for i in q.find_impls(items, self_ty="VmGreenThread", trait="Drop")]
     ok = False
     if drops:
         d = drops[0]["items"][0]
-        loops = [x for x in q.walk(d["body"]) if x["k"] == "For" and "heap_list" in q.show(x["e"])]
+        loops = [x for x in q.walk(d["body"]) if x["k"] == "For" and any(y["k"] == "Field" and y["f"] == HEAP for y in q.walk(x["e"]))]
         ok = bool(loops) and any(y["k"] == "MethodCall" and y["m"] == "dealloc" for y in q.walk(loops[0]["body"]))
-    r.ob(ok, "vm.rs:VmGreenThread:drop-does-not-free-heap", VM, drops[0]["l"] if drops else 0, "dropping a thread must free every object in its heap_list (impl Drop for VmGreenThread)", sample="Drop for VmGreenThread frees heap_list")
+    r.ob(ok, "vm.rs:VmGreenThread:drop-does-not-free-heap", VM, drops[0]["l"] if drops else 0, f"dropping a thread must free every object in its {HEAP} (impl Drop for VmGreenThread)", sample=f"Drop for VmGreenThread frees {HEAP}")
 
 
 @rule("OWN-LEDGER", ["C07"], "every raw allocation flows into a registry whose owner frees each entry with the matching deallocator when dropped")
@@ -502,6 +646,10 @@ def own_ledger(ctx, r):
         r.missing("vm.rs")
         return
     n = 0
+    ro = gc_roles(items)
+    if ro is None:
+        r.missing("collector roles", VM)
+        return
     registries = {}  # registry field -> owner struct
     for st_name in ("VmGreenThread", "VmSharedReadonly"):
         st = q.find_struct(items, st_name)
@@ -509,7 +657,7 @@ def own_ledger(ctx, r):
             r.missing(st_name, VM)
             continue
         for fl in st["fields"]:
-            if "*mut" in fl["ty"] and "Vec<" in fl["ty"] and fl["name"] != "gray_stack":
+            if "*mut" in fl["ty"] and "Vec<" in fl["ty"] and fl["name"] != (ro["GRAY"] if ro else "gray_stack"):
                 registries[fl["name"]] = st_name
     for impl in q.find_impls(items):
         ty = impl["self_ty"]
